@@ -288,6 +288,14 @@ fn gen_case(rng: &mut Rng, nusers: usize) -> Case {
     }
     // 1-3 OOV providers; exactly one position holds a SimpleOovPlugin for sure (every position gets a candidate), the others
     // are Simple / Regex / MeCab; every provider carries its own userPOS mode: allow, forbid, or no key at all
+    // words whose surface looks like a word id literal (`5`, `15`, `U1`): an inline reference to them starts with that text
+    let mut sys_idlike: Vec<usize> = vec![];
+    for name in ["5", "15"] {
+        if rng.chance(1, 2) {
+            sys_idlike.push(sys.len());
+            sys.push(Row { surface: name.into(), reading: format!("スウ{}", name), pos: rng.below(nsys_pos as u64) as usize, a: vec![], b: vec![], ws: vec![] });
+        }
+    }
     let nplug = 1 + rng.below(3) as usize;
     let simple_at = rng.below(nplug as u64) as usize;
     let mut plugins = vec![];
@@ -374,6 +382,16 @@ fn gen_case(rng: &mut Rng, nusers: usize) -> Case {
             let units = if rng.chance(1, 2) { vec![Unit::Inline(false, n), Unit::Inline(true, shadow)] } else { vec![Unit::Inline(true, shadow), Unit::Inline(false, n)] };
             let (a, b) = if rng.chance(1, 2) { (units.clone(), vec![]) } else { (vec![Unit::Sys(n), Unit::Own(shadow)], units.clone()) };
             rows.push(Row { surface: format!("u{}c{}", d + 1, shadow), reading: format!("フク{}", d), pos: rng.below(NPOOL as u64 - 1) as usize, a, b, ws: vec![] });
+        }
+        // a word named like a word id literal and a compound that refers to it (and to such a system word) inline
+        if rng.chance(1, 3) {
+            let name = *rng.pick(&["5", "15", "U1", "U0", "3", "U12", "0"]);
+            let named = rows.len();
+            rows.push(Row { surface: name.into(), reading: format!("ナマエ{}", name), pos: rng.below(NPOOL as u64 - 1) as usize, a: vec![], b: vec![], ws: vec![] });
+            let other = if !sys_idlike.is_empty() && rng.chance(2, 3) { Unit::Inline(false, *rng.pick(&sys_idlike)) } else { Unit::Inline(false, rng.below(nsys as u64) as usize) };
+            let units = if rng.chance(1, 2) { vec![Unit::Inline(true, named), other] } else { vec![other, Unit::Inline(true, named)] };
+            let (a, b) = if rng.chance(1, 2) { (units.clone(), vec![]) } else { (vec![Unit::Own(named), Unit::Sys(0)], units.clone()) };
+            rows.push(Row { surface: format!("u{}k{}", d + 1, named), reading: format!("フクゴウ{}", d), pos: rng.below(NPOOL as u64 - 1) as usize, a, b, ws: vec![] });
         }
         // a short katakana word (shorter than the join plugin's minLength) that unknown katakana can be glued to
         if rng.chance(1, 2) {
@@ -888,6 +906,67 @@ fn run_case(sink: &mut Sink, c: &Case, verbose: bool) {
             }
             res_rows.push(format!("({}, {})", clist(r.a.iter().chain(r.b.iter()).chain(r.ws.iter()).map(|u| unit_term(u, rows, &c.sys, dno > 0))), clist(splits.iter().map(|w| cn(*w)))));
             let want_loaded: Vec<u32> = want.iter().map(|w| if w >> 28 != 0 { ((dno as u32) << 28) | (w & 0x0fff_ffff) } else { *w }).collect();
+            // the reference lists under restricted subsets: one list, or two, at a time
+            if !want.is_empty() {
+                use sudachi::dic::subset::InfoSubset as IS;
+                let loadedv = |us: &Vec<Unit>| -> Vec<u32> {
+                    us.iter().map(|u| build_stamp(u, rows, &c.sys, dno > 0)).map(|w| if w >> 28 != 0 && w != u32::MAX { ((dno as u32) << 28) | (w & 0x0fff_ffff) } else { w }).collect()
+                };
+                let (wa, wb, ww) = (loadedv(&r.a), loadedv(&r.b), loadedv(&r.ws));
+                for (name, sub) in [("{SPLIT_A}", IS::SPLIT_A), ("{SPLIT_B}", IS::SPLIT_B), ("{WORD_STRUCTURE}", IS::WORD_STRUCTURE), ("{SPLIT_A, SPLIT_B}", IS::SPLIT_A | IS::SPLIT_B), ("{SPLIT_A, WORD_STRUCTURE}", IS::SPLIT_A | IS::WORD_STRUCTURE), ("{SPLIT_B, WORD_STRUCTURE}", IS::SPLIT_B | IS::WORD_STRUCTURE)] {
+                    let g = catch(|| {
+                        let wi = dict.lexicon().get_word_info_subset(id, sub).map_err(|e| format!("{:?}", e))?;
+                        Ok::<_, String>((wi.a_unit_split().iter().map(|w| w.as_raw()).collect::<Vec<u32>>(), wi.b_unit_split().iter().map(|w| w.as_raw()).collect::<Vec<u32>>(), wi.word_structure().iter().map(|w| w.as_raw()).collect::<Vec<u32>>()))
+                    });
+                    sink.tag("reference_lists_under_restricted_subset");
+                    match g {
+                        Ok(Ok((ga, gb, gw))) => {
+                            for (lname, flag, got, wantl, units) in [("split A", IS::SPLIT_A, &ga, &wa, &r.a), ("split B", IS::SPLIT_B, &gb, &wb, &r.b), ("word structure", IS::WORD_STRUCTURE, &gw, &ww, &r.ws)] {
+                                if sub.contains(flag) {
+                                    if got != wantl {
+                                        fail(format!("word ({}, {}) {:?} read with subset {}: {} references are {:?}, CSV row means {:?}", dno, i, r.surface, name, lname, got, wantl), "");
+                                    }
+                                    if sub == flag {
+                                        res_rows.push(format!("({}, {})", clist(units.iter().map(|u| unit_term(u, rows, &c.sys, dno > 0))), clist(got.iter().map(|w| cn(*w)))));
+                                    }
+                                }
+                            }
+                        }
+                        Ok(Err(e)) => fail(format!("word ({}, {}) cannot be read with subset {}: {}", dno, i, name, e), ""),
+                        Err(p) => fail(format!("reading word ({}, {}) with subset {} panicked: {}", dno, i, name, p), ""),
+                    }
+                }
+                // and through exact-surface lookup with a restricted subset
+                if !non_indexed(r) {
+                    for (name, sub) in [("{SPLIT_A}", IS::SPLIT_A), ("{WORD_STRUCTURE}", IS::WORD_STRUCTURE), ("{SPLIT_B}", IS::SPLIT_B)] {
+                        let g = catch(|| {
+                            let mut ml = sudachi::analysis::mlist::MorphemeList::empty(&dict);
+                            ml.lookup(&r.surface, sub).map_err(|e| format!("{:?}", e))?;
+                            let mut v = vec![];
+                            for k in 0..ml.len() {
+                                let m = ml.get(k);
+                                if m.word_id().as_raw() == id.as_raw() {
+                                    let wi = m.get_word_info();
+                                    v.push((wi.a_unit_split().iter().map(|w| w.as_raw()).collect::<Vec<u32>>(), wi.b_unit_split().iter().map(|w| w.as_raw()).collect::<Vec<u32>>(), wi.word_structure().iter().map(|w| w.as_raw()).collect::<Vec<u32>>()));
+                                }
+                            }
+                            Ok::<_, String>(v)
+                        });
+                        match g {
+                            Ok(Ok(v)) => {
+                                for (ga, gb, gw) in v {
+                                    let (got, wantl) = if sub == IS::SPLIT_A { (ga, &wa) } else if sub == IS::SPLIT_B { (gb, &wb) } else { (gw, &ww) };
+                                    if &got != wantl {
+                                        fail(format!("word ({}, {}) {:?} found by MorphemeList::lookup with subset {}: references are {:?}, CSV row means {:?}", dno, i, r.surface, name, got, wantl), "");
+                                    }
+                                }
+                            }
+                            Ok(Err(e)) => fail(format!("lookup of {:?} with subset {} failed: {}", r.surface, name, e), ""),
+                            Err(p) => fail(format!("lookup of {:?} with subset {} panicked: {}", r.surface, name, p), ""),
+                        }
+                    }
+                }
+            }
             if surf != r.surface {
                 fail(format!("word ({}, {}) has surface {:?}, CSV row says {:?}", dno, i, surf, r.surface), "");
             }
@@ -1269,6 +1348,27 @@ pub fn run(args: &Args) {
         let c = Case::plain(sys, vec![Plug::simple(0, 0)], vec![(configured, u1), (!configured, u2)]);
         run_case(&mut sink, &c, false);
         sink.tag("directed_non_indexed_rows_first_and_between");
+    }
+    // directed: words named like word id literals referenced inline; references of the 2nd / 3rd user dictionary (read under
+    // restricted subsets by every case)
+    for configured in [false, true] {
+        let mk = |s: &str, rd: &str, pos: usize| Row { surface: s.into(), reading: rd.into(), pos, a: vec![], b: vec![], ws: vec![] };
+        let sys = vec![mk("s0x", "ヨ0", 0), mk("s1x", "ヨ1", 1), mk("5", "ゴ", 2), mk("15", "ジュウゴ", 1), mk("s4x", "ヨ4", 0), mk("s5x", "ヨ5", 2)];
+        let mut u1 = vec![mk("U1", "ユーイチ", 7), mk("u1w1", "ユ1", 5), mk("3", "サン", 3), mk("u1k3", "フク3", 1), mk("u1k4", "フク4", 8)];
+        u1[3].a = vec![Unit::Inline(false, 2), Unit::Inline(true, 0)];
+        u1[4].a = vec![Unit::Inline(true, 2), Unit::Inline(false, 3)];
+        u1[4].b = vec![Unit::Own(0), Unit::Sys(2)];
+        u1[4].ws = vec![Unit::Own(2), Unit::Sys(3)];
+        let mut u2 = vec![mk("u2w0", "ユ0", 6), mk("5", "ベツノゴ", 6), mk("u2k2", "フク2", 9)];
+        u2[2].a = vec![Unit::Own(0), Unit::Inline(true, 1)];
+        u2[2].b = vec![Unit::Inline(false, 2), Unit::Own(1)];
+        u2[2].ws = vec![Unit::Own(1), Unit::Own(0)];
+        let mut u3 = vec![mk("u3w0", "ユ0", 4), mk("u3k1", "フク1", 4)];
+        u3[1].ws = vec![Unit::Own(0), Unit::Sys(0)];
+        u3[1].a = vec![Unit::Own(0), Unit::Sys(1)];
+        let c = Case::plain(sys, vec![Plug::simple(0, 0)], vec![(configured, u1), (!configured, u2), (configured, u3)]);
+        run_case(&mut sink, &c, false);
+        sink.tag("directed_id_like_surfaces_and_subsets");
     }
     // directed: 14 user dictionaries accepted, the 15th rejected
     for n in [14usize, 15] {
